@@ -1098,6 +1098,20 @@ func classifyFailure(d *spec.Design, m *spec.Method, payload, result any, ex *si
 	if strings.Contains(msg, "invalid response") && strings.Contains(msg, "is missing from") && sameNestedTypeTwoViews(d, resultType(d, m)) {
 		return "view:same-nested-type-under-two-views"
 	}
+	if u := resultType(d, m); u != nil && strings.Contains(msg, "invalid response") && strings.Contains(msg, "is missing from") {
+		for _, sv := range d.Services {
+			for _, x := range sv.Methods {
+				if x != m {
+					continue
+				}
+				for _, v := range u.Views {
+					if (m.FixedView == "" || m.FixedView == v.Name) && nestedUnderSeveralViews(d, sv, u, v.Name) {
+						return "view:nested-type-under-several-views-in-one-service"
+					}
+				}
+			}
+		}
+	}
 	absentMinLen := func(a *spec.Attr, v any) bool {
 		if a == nil {
 			return false
@@ -1154,7 +1168,7 @@ func classifyFailureAny(d *spec.Design, m *spec.Method, payload, result any, ex 
 	}
 	for _, e := range msgs {
 		c := classifyFailure(d, m, payload, result, ex, e)
-		if c == "path-param-contains-slash" || strings.HasPrefix(c, "optional-collection-with-min-length-left-unset") || c == "view:same-nested-type-under-two-views" {
+		if c == "path-param-contains-slash" || strings.HasPrefix(c, "optional-collection-with-min-length-left-unset") || c == "view:same-nested-type-under-two-views" || c == "view:nested-type-under-several-views-in-one-service" {
 			return c
 		}
 	}
